@@ -31,18 +31,19 @@ ASSUMPTIONS = [
     'results, SUM = "+" in rank order); real MPI transport, shared-memory windows and Split_type are not exercised',
     'variances are compared with atol 1e-12*mean^2 (a constant profile has variance 0 and M2 carries rounding noise)',
 ]
-_Q = {'online': 400, 'online_exhaustive': 1, 'mp': 2}
-_T = {'online': 6000, 'online_exhaustive': 1, 'mp': 9}
+_Q = {'online': 400, 'online_exhaustive': 1, 'alias': 60, 'mp': 3}
+_T = {'online': 6000, 'online_exhaustive': 1, 'alias': 600, 'mp': 9}
 BUDGET = {
     'quick': [dict(name='main', env={'NUMBA_BOUNDSCHECK': '1'}, shards=4, cases=_Q)],
     'thorough': [dict(name='main', env={'NUMBA_BOUNDSCHECK': '1'}, shards=16, cases=_T)],
 }
 WATCHDOG = {'quick': 900, 'thorough': 3000}
-REQUIRED = dict(monitors=['online:variance-equals-two-pass', 'online:same-on-every-rank', 'mp:exactly-once',
+REQUIRED = dict(monitors=['alias:variance-equals-two-pass', 'alias:update-leaves-its-argument-alone', 'online:variance-equals-two-pass', 'online:same-on-every-rank', 'mp:exactly-once',
                           'mp:conservation', 'mp:variance-equals-two-pass', 'mp:same-on-every-rank',
                           'mp:derived-trace-equals-single-process', 'mp:equals-single-process'],
                 classes=['rank-with-zero-samples', 'rank-with-one-sample', 'N<R', 'weights:zeros', 'weights:ties',
-                         'values:vector', 'mp:R>=3', 'mp:derived'])
+                         'values:vector', 'mp:R>=3', 'mp:derived', 'mp:binner-pass-through', 'mp:binner-flux',
+                         'alias:same-objects-two-accumulators', 'alias:one-buffer-overwritten'])
 TOL = 1e-10
 
 
@@ -169,6 +170,67 @@ def wl_online(ctx, rng):
                 'per_rank_counts': np.bincount(np.asarray(assign, dtype=int), minlength=nranks).tolist()})
 
 
+def wl_alias(ctx, rng):
+    """What the callers really hand over: arrays that live on (a model's profile buffer, a spectrum that is also the
+    'binned' spectrum when the binner passes it through).  Per rank TWO accumulators are fed the very same ndarray
+    objects (as compute_error does with native and binned spectra under a pass-through binner); sometimes one persistent
+    buffer is overwritten with each new sample (as a model that re-uses its output array does).  Both accumulators must
+    give the two-pass variance, and no array handed to update() may have been modified."""
+    from taurex.util.math import OnlineVariance
+    from taurex import mpi
+    nranks = int(rng.choice([1, 2, 3]))
+    n = int(rng.integers(2, 40))
+    d = int(rng.integers(1, 6))
+    w, wcls = draw_weights(rng, n)
+    w = np.asarray(w, dtype=float) + 1e-300
+    vals = rng.normal(rng.uniform(-5, 5), 10 ** rng.uniform(-2, 2), (n, d))
+    assign = np.arange(n) % nranks
+    mode = ['same-objects-two-accumulators', 'one-buffer-overwritten'][rng.integers(0, 2)]
+    ctx.observe('alias:' + mode, 'weights:' + wcls)
+    A = [OnlineVariance() for _ in range(nranks)]
+    B = [OnlineVariance() for _ in range(nranks)]
+    handed = []
+    buf = np.zeros(d)
+    for i in range(n):
+        r = int(assign[i])
+        if mode == 'one-buffer-overwritten':
+            buf[:] = vals[i]
+            arr = buf
+        else:
+            arr = np.array(vals[i], dtype=np.float64)
+            handed.append((arr, vals[i].copy()))
+        A[r].update(arr, weight=float(w[i]))
+        B[r].update(arr, weight=float(w[i]))
+        if mode == 'one-buffer-overwritten':
+            ctx.check('alias:update-leaves-its-argument-alone', np.array_equal(buf, vals[i]), sample=i, mode=mode)
+    for arr, orig in handed:
+        if not np.array_equal(arr, orig):
+            ctx.check('alias:update-leaves-its-argument-alone', False, mode=mode, got=arr, want=orig)
+            break
+    else:
+        ctx.check('alias:update-leaves-its-argument-alone', True)
+    mean, var = R_.weighted_mean_var(vals, w)
+    scale = np.max(np.abs(mean)) ** 2 + np.max(np.abs(vals)) ** 2
+    orig = mpi.allgather
+    try:
+        for name, objs in (('first', A), ('second', B)):
+            per = [(o.variance, o.mean if o.mean is not None else np.nan, o.wcount, o.count) for o in objs]
+            for r in range(nranks):
+                calls = {'n': 0}
+
+                def fake_allgather(value, calls=calls, per=per):
+                    k = calls['n']
+                    calls['n'] += 1
+                    return [pickled(per[q][k]) for q in range(nranks)]
+                mpi.allgather = fake_allgather
+                out = objs[r].parallelVariance()
+                ctx.close('alias:variance-equals-two-pass', out, var, TOL, atol=1e-12 * scale, accumulator=name, rank=r,
+                          mode=mode, nranks=nranks, n=n)
+    finally:
+        mpi.allgather = orig
+    ctx.sig('alias', mode, nranks, n, d, wcls)
+
+
 def wl_online_exhaustive(ctx, rng):
     """Every assignment of n<=6 samples to R<=3 ranks (only shard 0 enumerates; the space is fixed)."""
     if ctx.shard != 0:
@@ -190,7 +252,7 @@ def wl_online_exhaustive(ctx, rng):
 
 
 # ---------------------------------------------------------------- multi-process
-def make_mp_case(rng):
+def make_mp_case(rng, index=0):
     """Identical on the parent and on every rank (same rng stream)."""
     Rn = int(rng.choice([2, 3, 4, 5, 8, 2, 3]))
     for _ in range(50):
@@ -216,8 +278,9 @@ def make_mp_case(rng):
     if N == 0:
         derived = []       # quantiles of an empty trace are undefined in a single process too
     frac = float(rng.choice([1.0, 1.0, 0.5]))
+    pyseed = int(rng.integers(0, 2 ** 31))
     return {'R': Rn, 'spec': spec, 'N': N, 'samples': samples, 'weights': w, 'wcls': wcls, 'derived': derived,
-            'frac': frac, 'mol': mol, 'pyseed': int(rng.integers(0, 2 ** 31))}
+            'frac': frac, 'mol': mol, 'pyseed': pyseed, 'passthrough': bool(int(index) % 3 == 1)}
 
 
 def rank_main(seed, workload, shard, index):
@@ -229,7 +292,7 @@ def rank_main(seed, workload, shard, index):
     from taurex.util.math import OnlineVariance
     from taurex import mpi
     rng = case_rng(seed, workload, shard, index)
-    case = make_mp_case(rng)
+    case = make_mp_case(rng, index)
     spec = case['spec']
     world.reset_caches()
     world.install_opacities(spec)
@@ -240,7 +303,18 @@ def rank_main(seed, workload, shard, index):
     k = 3
     c = np.linspace(wn[0] + 0.2 * (wn[-1] - wn[0]), wn[-1] - 0.2 * (wn[-1] - wn[0]), k)
     wl = 1e4 / c
-    obs = ArraySpectrum(np.stack([wl, np.full(k, 1e-3), np.full(k, 1e-5), np.full(k, (wl[0] - wl[1]) * 0.5)]).T)
+    rows = np.stack([wl, np.full(k, 1e-3), np.full(k, 1e-5), np.full(k, (wl[0] - wl[1]) * 0.5)]).T
+    if case['passthrough']:
+        # an observation whose binner hands the native spectrum through (what ForwardModel.defaultBinner() and the
+        # light-curve observation do): native and "binned" spectrum are then one and the same array object
+        from taurex.binning import NativeBinner
+
+        class PassThroughObservation(ArraySpectrum):
+            def create_binner(self):
+                return NativeBinner()
+        obs = PassThroughObservation(rows)
+    else:
+        obs = ArraySpectrum(rows)
     events = []
     samples, weights = case['samples'], case['weights']
 
@@ -309,7 +383,7 @@ def rank_main(seed, workload, shard, index):
 
 def wl_mp(ctx, rng):
     from vmon import lib_c18
-    case = make_mp_case(rng)
+    case = make_mp_case(rng, ctx.case['index'])
     Rn, N = case['R'], case['N']
     c = ctx.case
     args = ['c18', str(c['seed']), c['workload'], str(c['shard']), str(c['index'])]
@@ -320,7 +394,8 @@ def wl_mp(ctx, rng):
         ctx.observe('mp:derived')
     if N < Rn:
         ctx.observe('N<R')
-    ctx.feature(R=Rn, N=N, weights=case['wcls'], derived=case['derived'], frac=case['frac'])
+    ctx.feature(R=Rn, N=N, weights=case['wcls'], derived=case['derived'], frac=case['frac'], passthrough=case['passthrough'])
+    ctx.observe('mp:binner-' + ('pass-through' if case['passthrough'] else 'flux'))
     ranks, report = lib_c18.run_ranks(Rn, args, ctx.scratch)
     single, srep = lib_c18.run_ranks(1, args, ctx.scratch)
     ctx.event('mp-run')
@@ -435,7 +510,7 @@ def wl_mp(ctx, rng):
                 'collectives': report['ops'], 'per_rank_processed': [len([e for e in r['events'] if e[0] == 'update_model' and e[1] == 'profiles']) for r in ranks]})
 
 
-WORKLOADS = {'online': wl_online, 'online_exhaustive': wl_online_exhaustive, 'mp': wl_mp}
+WORKLOADS = {'online': wl_online, 'online_exhaustive': wl_online_exhaustive, 'alias': wl_alias, 'mp': wl_mp}
 
 LEVEL_TEXT = ('Exploration by runtime monitoring of simulated rank splits: (1) in-process, the real OnlineVariance objects of R '
               'ranks are fed every assignment of <=6 samples to <=3 ranks and thousands of random assignments, '
